@@ -16,6 +16,7 @@ import MqttVerif.Model.Retry
 import MqttVerif.Model.BaseClient
 import MqttVerif.Model.KeepAlive
 import MqttVerif.Model.ReconnOpts
+import MqttVerif.Model.TaskLoop
 
 open Mqtt
 
@@ -377,6 +378,7 @@ def parseEv (s : String) : Option Ev :=
   | ["sa", id, codes] => do pure (.inb (.suback (← id.toNat?) (← Oracle.parseDesc codes)))
   | ["ua", id] => do pure (.inb (.unsuback (← id.toNat?)))
   | ["pg"] => some (.inb .pingresp)
+  | ["fast2"] => some (.cancel 1000000000)
   | ["fast"] => some (.cancel 1000000000)   -- harness hint (the next request is answered before its Write returns): a model no-op
   | ["in", q, id] => do pure (.inb (.publish (← q.toNat?) (← id.toNat?)))
   | ["rel", id] => do pure (.inb (.pubrel (← id.toNat?)))
@@ -533,6 +535,24 @@ def handle (toks : List String) : Option String :=
       let bits := String.ofList (ts.map (fun t => if stdIs x t then '1' else '0'))
       let top := match x with | .leaf i => (if i = eofId then "eof" else "leaf") | _ => "node"
       pure s!"top={top} is={bits} retry={showBool (hasRetry x)} rto={showBool (stdAsRto x).isSome}"
+  | "tloop" :: toks => do
+    -- S SetClient, C RetryClient.Connect on the current client returns, P a request is pushed, A the running request returns;
+    -- the goroutine runs until it blocks after every event; inapplicable tokens are ignored (by the harness as well)
+    let fuel := 64
+    let stepTok (acc : TaskLoop.S × Nat × List Nat) (t : String) : Option (TaskLoop.S × Nat × List Nat) :=
+      let (s, next, plan) := acc
+      let fin (s' : TaskLoop.S) (n : Nat) := let s'' := TaskLoop.settle .fixed fuel s'; some (s'', n, plan ++ [s''.log.length])
+      match t with
+      | "S" => fin (TaskLoop.step .fixed s .setClient) next
+      | "C" => fin (TaskLoop.step .fixed s (.connectReturn s.gen)) next
+      | "P" => fin (TaskLoop.step .fixed s (.submit next)) (next + 1)
+      | "A" => fin (TaskLoop.step .fixed s (.taskEnd false)) next
+      | _ => none
+    let (s, _, plan) ← toks.foldlM stepTok (TaskLoop.init, 0, [])
+    let showStart (e : TaskLoop.Start) := s!"t{e.1}" ++ (if e.2.2 then "@" else "!") ++ s!"{e.2.1}"
+    let pc := match s.pc with
+      | .waitRead => "wait" | .waitSel _ => "wait" | .top => "top" | .idle => "idle" | .run t g => s!"run{t}@{g}"
+    pure (String.intercalate " " (s.log.map showStart) ++ s!" | q={s.queue.length} pc={pc} || " ++ String.intercalate "," (plan.map toString))
   | ["ropts", ping, to, ka] => do
     let o : ReconnOpts.Opts := { pingInterval := ← ping.toInt?, timeout := ← to.toInt? }
     let e := ReconnOpts.effective o (← ka.toNat?)
